@@ -1,6 +1,7 @@
 mod drive_ctx;
 mod drive_eval;
 mod drive_ops;
+mod drive_refs;
 mod enc;
 mod gen;
 mod gen_untyped;
@@ -94,6 +95,12 @@ fn main() {
             let st = drive_eval::c20_table(seed, thorough, &mut out);
             out.flush().unwrap();
             eprintln!("c20-table cases={} compile_fail={} panics={}", st.cases, st.compile_fail, st.panics);
+        }
+        "drive-refs" => {
+            let mut out = std::io::BufWriter::new(std::fs::File::create(&out_path).expect("open out"));
+            let k = drive_refs::drive(seed, n, if depth > 0 { depth } else { 5 }, &mut out);
+            out.flush().unwrap();
+            eprintln!("drive-refs cases={}", k);
         }
         "run-vectors" => {
             // spec -> implementation: run every TLC-generated source text against the model's context
